@@ -158,6 +158,16 @@ LexParseIdeal(e) ==
               v |-> IF pu.some /\ bud.some THEN [kind |-> "task", v |-> [budget |-> bud.v, sentence |-> sent]]
                     ELSE IF pu.some THEN [kind |-> "sentence", v |-> sent]
                     ELSE [kind |-> "term", v |-> term.t]]
+\* the window of parse_items as the hook of the lexical parser reports it (event "cuts")
+LexCuts(e) ==
+  LET bud == SegBudget(e)
+      tr == SegTruth(e)
+      rb1 == IF tr.some THEN tr.border ELSE Len(e)
+      st == SegStamp(Sl(e, 0, rb1))
+      rb2 == IF st.some THEN st.border ELSE rb1
+      pu == SegPunct(Sl(e, 0, rb2))
+  IN [len |-> Len(e), begin |-> IF bud.some THEN bud.border ELSE 0, right |-> IF pu.some THEN pu.border ELSE rb2,
+      budget |-> bud.some, truth |-> tr.some, stamp |-> st.some, punctuation |-> pu.some]
 LexParse(text) == LexParseIdeal(Idealize(text))
 LexParseTerm(text) == LET r == SegTerm(Idealize(text)) IN IF r.ok THEN [r |-> "ok", v |-> r.t] ELSE LErr
 =============================================================================
